@@ -20,6 +20,7 @@ use anyhow::Context;
 use bytes::Bytes;
 use fallible_iterator::FallibleIterator;
 use indexmap::IndexMap;
+use std::ops::Range;
 
 mod btree;
 mod hashbrown;
@@ -743,10 +744,11 @@ impl<'a> VariableParserExtension<'a> {
             .type_size_in_bytes(pcx.evcx, inner_type)
             .ok_or_else(|| UnknownSize(r#type.identity(inner_type)))?
             as usize;
+        // the ring is laid out by the real capacity, guards limit what is shown
         let cap = if el_type_size == 0 {
             usize::MAX
         } else {
-            guard_cap(extract_capacity(pcx, &val)? as i64) as usize
+            extract_capacity(pcx, &val)?
         };
         let head = val.assume_field_as_scalar_number("head")? as usize;
 
@@ -762,23 +764,37 @@ impl<'a> VariableParserExtension<'a> {
 
         let data_ptr = val.assume_field_as_pointer("pointer")? as usize;
 
-        let data =
-            debugger::read_memory_by_pid(pcx.evcx.ecx.pid_on_focus(), data_ptr, cap * el_type_size)
-                .map(Bytes::from)?;
+        // read only slots that will be shown, the whole buffer may be huge
+        let read_slots = |slots: Range<usize>| -> Result<_, ParsingError> {
+            // header of an uninitialized deque is garbage, don't let it overflow an address
+            slots
+                .end
+                .checked_mul(el_type_size)
+                .and_then(|end| data_ptr.checked_add(end))
+                .ok_or(IncompleteInterp("VecDeque"))?;
+            let data = debugger::read_memory_by_pid(
+                pcx.evcx.ecx.pid_on_focus(),
+                data_ptr + slots.start * el_type_size,
+                slots.len() * el_type_size,
+            )?;
+            Ok((slots, Bytes::from(data)))
+        };
+        let data = [read_slots(slice_ranges.0)?, read_slots(slice_ranges.1)?];
 
-        let items = slice_ranges
-            .0
-            .chain(slice_ranges.1)
+        let items = data
+            .iter()
+            .flat_map(|(slots, data)| {
+                slots.clone().enumerate().map(move |(i, real_idx)| {
+                    let el_raw_data = &data[i * el_type_size..(i + 1) * el_type_size];
+                    ObjectBinaryRepr {
+                        raw_data: data.slice_ref(el_raw_data),
+                        address: Some(data_ptr + real_idx * el_type_size),
+                        size: el_type_size,
+                    }
+                })
+            })
             .enumerate()
-            .filter_map(|(i, real_idx)| {
-                let offset = real_idx * el_type_size;
-                let el_raw_data = &data[offset..(real_idx + 1) * el_type_size];
-                let el_data = ObjectBinaryRepr {
-                    raw_data: data.slice_ref(el_raw_data),
-                    address: Some(data_ptr + offset),
-                    size: el_type_size,
-                };
-
+            .filter_map(|(i, el_data)| {
                 Some(ArrayItem {
                     index: i as i64,
                     value: self.parser.parse_inner(pcx, Some(el_data), inner_type)?,
@@ -809,7 +825,7 @@ impl<'a> VariableParserExtension<'a> {
                             value: Some(SupportedScalar::Usize(if el_type_size == 0 {
                                 0
                             } else {
-                                cap
+                                guard_cap(cap as i64) as usize
                             })),
                             // set to `None` because the address operator unavailable for spec vars
                             raw_address: None,
